@@ -13,6 +13,7 @@ import (
 	"context"
 	"encoding/json"
 	"fmt"
+	"net"
 	"os"
 	"path/filepath"
 	"regexp"
@@ -44,7 +45,8 @@ type hist struct {
 	Try    []string `json:"try"`
 	VH     []int    `json:"vh"`
 	Reg    []string `json:"reg"`
-	Ren    []string `json:"ren"` // registered servers re-registered through the API as "S2" for "s2"
+	Ren    []string `json:"ren"`  // registered servers re-registered through the API as "S2" for "s2"
+	Away   []string `json:"away"` // registered servers that were unregistered while an earlier player joined
 	Fails  []string `json:"fails"`
 	Log    []string `json:"log"` // the model's prediction (informational: model drift)
 	St     string   `json:"st"`
@@ -250,7 +252,18 @@ func TestReplay(t *testing.T) {
 			for _, r := range recs {
 				tw.Emit(r)
 			}
-			stats["runs"]++
+			// statistics on the history's own player (the last run; a prelude player's run may precede it)
+			first := 0
+			for i, r := range recs {
+				if r["ev"] == "reset" {
+					first = i
+					stats["runs"]++
+				}
+			}
+			if first > 0 {
+				stats["with_prelude_player"]++
+			}
+			recs = recs[first:]
 			n := len(recs) - 2
 			stats[fmt.Sprintf("attempts=%d", n)]++
 			end := recs[len(recs)-1]
@@ -265,7 +278,7 @@ func TestReplay(t *testing.T) {
 			}
 			if len(samples) < 3 && n >= 2 {
 				samples = append(samples, map[string]any{"vhost": cpsString(h.VH), "forced_key": cpsString(h.Forced.Key),
-					"forced": h.Forced.List, "try": h.Try, "registered": h.Reg, "renamed": h.Ren, "fails": h.Fails, "events": recs[1:]})
+					"forced": h.Forced.List, "try": h.Try, "registered": h.Reg, "renamed": h.Ren, "away_for_earlier_player": h.Away, "fails": h.Fails, "events": recs[1:]})
 			}
 		}()
 	}
@@ -277,6 +290,9 @@ func TestReplay(t *testing.T) {
 }
 
 // replay runs one history on its own proxy and returns the trace lines, or why it was inconclusive.
+// With a prelude (h.Away not empty) an earlier player joins while the servers of h.Away are
+// unregistered; they are registered again before the history's own player joins. Both players
+// are separate runs in the trace, each judged against the registration in force for it.
 func replay(t *testing.T, hi int, h hist, seed int64, backends map[string]*rig.Backend, cfgDir string) ([]tracefmt.Rec, string) {
 	// --- configuration file -> gate's loader
 	var y bytes.Buffer
@@ -300,15 +316,9 @@ func replay(t *testing.T, hi int, h hist, seed int64, backends map[string]*rig.B
 		t.Errorf("LoadConfig: %v\n%s", err, y.String())
 		return nil, "config load"
 	}
-	name := fmt.Sprintf("h%d_%d", seed%1000, hi)
-	ru := &run{name: name, script: h.Fails, reg: map[string]bool{}, done: make(chan struct{}),
-		accepted: make(chan string, 1), post: make(chan struct{}, 1)}
-	for _, s := range h.Reg {
-		ru.reg[s] = true
-	}
 	mgr := event.New()
 	event.Subscribe(mgr, 0, func(e *proxy.ServerPostConnectEvent) {
-		if e.Player().Username() == name {
+		if ru := getRun(e.Player().Username()); ru != nil {
 			select {
 			case ru.post <- struct{}{}:
 			default:
@@ -324,49 +334,111 @@ func replay(t *testing.T, hi int, h hist, seed int64, backends map[string]*rig.B
 		t.Error(err)
 		return nil, "rig"
 	}
-	ru.r = r
 	defer r.Close()
-	defer close(ru.done)
+	in := func(list []string, s string) bool {
+		for _, x := range list {
+			if x == s {
+				return true
+			}
+		}
+		return false
+	}
+	unregister := func(s string) bool {
+		rs := r.P.Server(s)
+		return rs != nil && r.P.Unregister(rs.ServerInfo())
+	}
+	register := func(s string) bool {
+		n := s
+		if in(h.Ren, s) {
+			n = strings.ToUpper(s) // registered through the API under another spelling of its name
+		}
+		addr, _ := net.ResolveTCPAddr("tcp", backends[s].Addr())
+		_, err := r.P.Register(proxy.NewServerInfo(n, addr))
+		return err == nil
+	}
 	for _, s := range order {
-		if !ru.reg[s] {
-			if rs := r.P.Server(s); rs == nil || !r.P.Unregister(rs.ServerInfo()) {
+		if !in(h.Reg, s) || in(h.Away, s) || in(h.Ren, s) {
+			if !unregister(s) {
 				t.Errorf("cannot unregister %s", s)
 				return nil, "unregister"
 			}
 		}
+		if in(h.Reg, s) && in(h.Ren, s) && !in(h.Away, s) && !register(s) {
+			t.Errorf("cannot register %s again", s)
+			return nil, "rename"
+		}
 	}
-	for _, s := range h.Ren {
-		rs := r.P.Server(s)
-		if rs == nil || !r.P.Unregister(rs.ServerInfo()) {
-			t.Errorf("cannot unregister %s for renaming", s)
-			return nil, "rename"
+	var done []chan struct{}
+	defer func() {
+		for _, d := range done {
+			close(d)
 		}
-		if _, err := r.P.Register(proxy.NewServerInfo(strings.ToUpper(s), rs.ServerInfo().Addr())); err != nil {
-			t.Errorf("register %s: %v", strings.ToUpper(s), err)
-			return nil, "rename"
+	}()
+	var recs []tracefmt.Rec
+	if len(h.Away) > 0 {
+		var regA, renA []string
+		for _, s := range h.Reg {
+			if !in(h.Away, s) {
+				regA = append(regA, s)
+				if in(h.Ren, s) {
+					renA = append(renA, s)
+				}
+			}
 		}
+		ra, d, why := play(t, r, backends, loaded.Config.ForcedHosts, h, fmt.Sprintf("a%d_%d", seed%1000, hi), hi, nil, regA, renA, "prelude")
+		if d != nil {
+			done = append(done, d)
+		}
+		if why != "" {
+			return nil, "prelude: " + why
+		}
+		recs = append(recs, ra...)
+		for _, s := range h.Away {
+			if !register(s) {
+				t.Errorf("cannot register %s again", s)
+				return nil, "re-register"
+			}
+		}
+	}
+	rb, d, why := play(t, r, backends, loaded.Config.ForcedHosts, h, fmt.Sprintf("h%d_%d", seed%1000, hi), hi, h.Fails, h.Reg, h.Ren, "main")
+	if d != nil {
+		done = append(done, d)
+	}
+	if why != "" {
+		return nil, why
+	}
+	return append(recs, rb...), ""
+}
+
+// play logs one player in on proxy r and follows it to its end. The returned channel must be
+// closed when the proxy is done with (it releases stalled connections and keeps the player online).
+func play(t *testing.T, r *rig.Rig, backends map[string]*rig.Backend, loadedForced map[string][]string, h hist,
+	name string, hi int, script, reg, ren []string, role string) ([]tracefmt.Rec, chan struct{}, string) {
+	ru := &run{name: name, script: script, reg: map[string]bool{}, done: make(chan struct{}),
+		accepted: make(chan string, 1), post: make(chan struct{}, 1), r: r}
+	for _, s := range reg {
+		ru.reg[s] = true
 	}
 	runsMu.Lock()
 	runs[name] = ru
 	runsMu.Unlock()
-	defer func() { runsMu.Lock(); delete(runs, name); runsMu.Unlock() }()
 
 	port := []int{25565, 1, 65535}[hi%3]
-	reset := tracefmt.Rec{"ev": "reset", "hist": hi, "forced": map[string]any{"has": h.Forced.Has, "key": ints(h.Forced.Key), "list": strs(h.Forced.List)},
-		"try": strs(h.Try), "vh": ints(h.VH), "reg": strs(h.Reg), "renamed": strs(h.Ren), "port": port,
-		"loaded_forced_keys": keysOf(loaded.Config.ForcedHosts)}
+	reset := tracefmt.Rec{"ev": "reset", "hist": hi, "role": role, "forced": map[string]any{"has": h.Forced.Has, "key": ints(h.Forced.Key), "list": strs(h.Forced.List)},
+		"try": strs(h.Try), "vh": ints(h.VH), "reg": strs(reg), "renamed": strs(ren), "away_before": strs(h.Away), "port": port,
+		"loaded_forced_keys": keysOf(loadedForced)}
 	c, err := r.Dial()
 	if err != nil {
 		t.Error(err)
-		return nil, "dial"
+		return nil, ru.done, "dial"
 	}
-	defer c.Close()
+	go func() { <-ru.done; c.Close() }()
 	const proto = rig.P1_20
 	if err := c.WritePacket(0, rig.HandshakePayload(proto, cpsString(h.VH), port, 2)); err != nil {
-		return nil, "write"
+		return nil, ru.done, "write"
 	}
 	if err := c.WritePacket(rig.SBLoginStart, rig.LoginStartPayload(proto, name, rig.OfflineUUID(name))); err != nil {
-		return nil, "write"
+		return nil, ru.done, "write"
 	}
 	// client: read until the proxy closes; remember the last disconnect packet
 	closed := make(chan []byte, 1)
@@ -385,6 +457,7 @@ func replay(t *testing.T, hi int, h hist, seed int64, backends map[string]*rig.B
 				c.SetCompression(mcwire.NewRd(p.Data).VarInt())
 			case !inPlay && p.ID == rig.LoginSuccessID:
 				inPlay = true
+				c.Timeout = 0 // a connected player stays as long as the history lasts
 			case !inPlay && p.ID == rig.LoginDisconnect:
 				last = p.Data
 			case inPlay && p.ID == rig.PlayDisconnectID(proto):
@@ -409,7 +482,7 @@ func replay(t *testing.T, hi int, h hist, seed int64, backends map[string]*rig.B
 			case <-closed: // the proxy dropped the player while the last server was accepting it
 				end["state"] = "disconnected"
 			default:
-				return nil, "final join not completed"
+				return nil, ru.done, "final join not completed"
 			}
 		} else {
 			end["state"] = "connected"
@@ -426,19 +499,19 @@ func replay(t *testing.T, hi int, h hist, seed int64, backends map[string]*rig.B
 			}
 		}
 	case <-time.After(40 * time.Second):
-		return nil, "no end within 40s"
+		return nil, ru.done, "no end within 40s"
 	}
 	ru.mu.Lock()
 	defer ru.mu.Unlock()
 	if ru.inconcl != "" {
-		return nil, ru.inconcl
+		return nil, ru.done, ru.inconcl
 	}
 	recs := []tracefmt.Rec{reset}
 	for _, a := range ru.attempts {
 		recs = append(recs, tracefmt.Rec{"ev": "attempt", "server": a.Server, "fail": a.Fail, "inflight": a.Inflight})
 	}
 	recs = append(recs, end)
-	return recs, ""
+	return recs, ru.done, ""
 }
 
 func ints(a []int) []int {
